@@ -411,10 +411,10 @@ fn check_constructors(dim: usize) -> CaseOut {
 pub fn cases(tier: Tier) -> Vec<Case> {
     let mut v = vec![];
     let vals = [1.0, -1.0, 2.0, 0.5];
-    let (nz_single, nz_pair) = match tier { Tier::Quick => (3, 2), Tier::Thorough => (4, 2) };
+    let (nz_single, nz_pair) = match tier { Tier::Quick => (4, 2), Tier::Thorough => (5, 2) };
     let shapes: Vec<(usize, usize)> = vec![(1, 1), (1, 2), (2, 1), (2, 2), (1, 3), (3, 1), (2, 3), (3, 2), (3, 3)];
     for (r, c) in &shapes {
-        let nz = if r * c >= 6 { nz_single.min(3) } else { nz_single };
+        let nz = if r * c >= 6 { nz_single.min(3) } else if r * c >= 4 { nz_single.min(4) } else { nz_single };
         for m in mats(*r, *c, &vals, nz) {
             v.push(Case::Single(m));
         }
@@ -467,8 +467,8 @@ pub fn run(tier: Tier) -> Report {
     rep.set("distinct_nontrivial", nt.saturating_sub(cs.iter().filter(|c| matches!(c, Case::Single(m) if m.mat.iter().flatten().all(|x| *x == 0.0) && m.bias.iter().all(|x| *x == 0.0))).count() as u64));
     rep.set("rule", "matrices/biases of every shape in {1,2,3}^2 with at most k non-zero entries over {+-1,2,0.5}; pairs for compose (inner dimensions agree), stack (input dimensions agree) and the element-wise operators (equal shapes, six ownership variants each; dense divisors for / and %); constructors for dims 1..5 with every index argument incl. left == right, every NaN pattern for slice; non-trivial = not the all-zero function; distinct because enumerated without repetition");
     rep.set("bound", match tier {
-        Tier::Quick => "singles: <= 3 non-zero entries; pairs: <= 2 non-zero entries each over 9 shape pairs",
-        Tier::Thorough => "singles: <= 4 non-zero entries (3 for 6+ slots); pairs over every compatible shape pair",
+        Tier::Quick => "singles: <= 4 non-zero entries (3 for 6+ slots); pairs: <= 2 non-zero entries each over 9 shape pairs",
+        Tier::Thorough => "singles: <= 5 non-zero entries (4 for 4-5 slots, 3 for 6+ slots); pairs over every compatible shape pair",
     });
     rep.assume("affine identities are decided on coefficients with exact rationals; apply()/apply_transpose() additionally evaluated on a 5^n lattice; constructors compared on the origin, all unit vectors and two generic points (decides an affine map)");
     rep
